@@ -15,10 +15,14 @@ type Wire struct {
 	NumVb   int
 	OnServe func(cmd memd.CmdCode, outcome string) // called when a reply is sent ("ok" | "fail"); never for "silent"
 	streams map[uint16]func(*memd.Packet)
+	FoLog   [][2]uint64      // failover log (newest first) answered to DCP_GET_FAILOVER_LOG and on a successful stream request
+	Rollback map[uint16]uint64 // vb -> seqno: the next stream request of vb is answered ROLLBACK(seqno) (once)
+	Reqs    [][5]uint64      // every DCP_STREAM_REQ received: vbUUID, start, end, snapshot start, snapshot end
 }
 
 func NewWire(numVb int) *Wire {
-	return &Wire{Mode: map[memd.CmdCode]string{}, Store: NewStore(), NumVb: numVb, streams: map[uint16]func(*memd.Packet){}}
+	return &Wire{Mode: map[memd.CmdCode]string{}, Store: NewStore(), NumVb: numVb, streams: map[uint16]func(*memd.Packet){},
+		FoLog: [][2]uint64{{0xAAAA, 0}}, Rollback: map[uint16]uint64{}}
 }
 
 func (w *Wire) Set(mode string, cmds ...memd.CmdCode) {
@@ -67,10 +71,22 @@ func (w *Wire) Handler() func(n *Node, c *memd.Conn, p *memd.Packet, send func(*
 			res(memd.StatusSuccess, nil, v)
 		case memd.CmdDcpGetFailoverLog:
 			w.served(p.Command, "ok")
-			res(memd.StatusSuccess, nil, append(be64(0xAAAA), be64(0)...))
+			res(memd.StatusSuccess, nil, w.folog())
 		case memd.CmdDcpStreamReq:
+			if len(p.Extras) >= 48 {
+				w.mu.Lock()
+				w.Reqs = append(w.Reqs, [5]uint64{u64(p.Extras[24:]), u64(p.Extras[8:]), u64(p.Extras[16:]), u64(p.Extras[32:]), u64(p.Extras[40:])})
+				rb, isRb := w.Rollback[p.Vbucket]
+				delete(w.Rollback, p.Vbucket)
+				w.mu.Unlock()
+				if isRb {
+					w.served(p.Command, "fail")
+					res(memd.StatusRollback, nil, be64(rb))
+					return true
+				}
+			}
 			w.served(p.Command, "ok")
-			res(memd.StatusSuccess, nil, append(be64(0xAAAA), be64(0)...))
+			res(memd.StatusSuccess, nil, w.folog())
 			op, vb := p.Opaque, p.Vbucket
 			w.mu.Lock()
 			w.streams[vb] = func(q *memd.Packet) { q.Magic = memd.CmdMagicReq; q.Opaque = op; q.Vbucket = vb; send(q) }
@@ -101,4 +117,41 @@ func (w *Wire) Handler() func(n *Node, c *memd.Conn, p *memd.Packet, send func(*
 		}
 		return true
 	}
+}
+
+func u64(b []byte) uint64 {
+	var v uint64
+	for i := 0; i < 8; i++ {
+		v = v<<8 | uint64(b[i])
+	}
+	return v
+}
+
+func (w *Wire) folog() []byte {
+	w.mu.Lock()
+	defer w.mu.Unlock()
+	var v []byte
+	for _, e := range w.FoLog {
+		v = append(v, be64(e[0])...)
+		v = append(v, be64(e[1])...)
+	}
+	return v
+}
+
+// Script sets what the next stream request of vb meets and forgets the requests seen so far.
+func (w *Wire) Script(vb uint16, folog [][2]uint64, rollback int64) {
+	w.mu.Lock()
+	w.FoLog = folog
+	w.Reqs = nil
+	delete(w.Rollback, vb)
+	if rollback >= 0 {
+		w.Rollback[vb] = uint64(rollback)
+	}
+	w.mu.Unlock()
+}
+
+func (w *Wire) Requests() [][5]uint64 {
+	w.mu.Lock()
+	defer w.mu.Unlock()
+	return append([][5]uint64{}, w.Reqs...)
 }
